@@ -440,10 +440,19 @@ static void handle_include (const char *inc_name, int optional) {
         {
           char *q;
 
+          static int macro_depth = 0; /* #define A A / #include A must end */
+
           q = d->exps; /* #include MACRO */
           while (isspace (*q))
             q++;
-          handle_include (q, optional);
+          if (macro_depth >= 16)
+            include_error ("Missing leading \" or < in #include");
+          else
+            {
+              macro_depth++;
+              handle_include (q, optional);
+              macro_depth--;
+            }
         }
       else
         {
